@@ -43,6 +43,8 @@ pub enum Terminal {
     ReadBoundExceeded,
     /// receive kept returning responses without consuming input
     NoProgress,
+    /// (only in `Obs::after_terminal`) a further receive call returned a response
+    Response,
     Panic(String),
 }
 
@@ -54,6 +56,8 @@ pub struct Obs {
     pub reads: usize,
     /// panic message if one of the extra receive calls after the terminal outcome panicked
     pub after_terminal_panic: Option<String>,
+    /// what the extra receive calls after the terminal outcome returned ("Response" or a terminal)
+    pub after_terminal: Vec<Terminal>,
     /// inconsistencies between accessors of one Response (successful_frames/is_error/is_success)
     pub accessor_mismatch: Option<String>,
 }
@@ -133,6 +137,7 @@ pub fn run_with(
         terminal: Terminal::CleanEof,
         reads: 0,
         after_terminal_panic: None,
+        after_terminal: Vec::new(),
         accessor_mismatch: None,
     };
 
@@ -152,11 +157,17 @@ pub fn run_with(
                 // whenever the first one is interrupted (it receives one more line of a response of
                 // its own and is interrupted as well)
                 let mut other = (flavour == Flavour::BlockingInterrupted).then(|| Connection::connect(NoiseReader { greeted: false, give: true, at: 0 }).expect("noise greeting"));
+                let mut interruptions = 0u32;
+                let mut move_next = false;
+                let chatty = flavour == Flavour::BlockingInterrupted;
+                let salt = if chatty { crate::core::stable_hash(stream) } else { 0 };
                 let terminal = loop {
                     if let Some(o) = other.as_mut() {
                         let _ = o.receive();
                     }
-                    match conn.receive() {
+                    // now and then the connection is handed to another thread for one call
+                    let received = if std::mem::take(&mut move_next) { crate::core::on_other_thread(|| conn.receive()) } else { conn.receive() };
+                    match received {
                         Ok(Some(r)) => {
                             let (o, mm) = observe_response(&r);
                             obs.responses.push(o);
@@ -166,9 +177,27 @@ pub fn run_with(
                             if obs.responses.len() > max_responses {
                                 break Terminal::NoProgress;
                             }
+                            // a pipelining application sends its next request now (the bytes of later
+                            // responses may already sit in the receive buffer)
+                            if chatty && obs.responses.len() <= 40 {
+                                let _ = conn.send(chatter(salt, obs.responses.len() as u64));
+                            }
                         }
                         Ok(None) => break Terminal::CleanEof,
-                        Err(MpdProtocolError::Io(e)) if flavour == Flavour::BlockingInterrupted && e.kind() == io::ErrorKind::WouldBlock => continue,
+                        Err(MpdProtocolError::Io(e)) if flavour == Flavour::BlockingInterrupted && e.kind() == io::ErrorKind::WouldBlock => {
+                            // while it waits the application talks (what a caller cancelling `idle`
+                            // does): sending must not disturb the response in progress
+                            interruptions += 1;
+                            match interruptions % 4 {
+                                1 if interruptions > 4 && interruptions < 60 => drop(conn.send(chatter(salt, 1000 + u64::from(interruptions)))),
+                                1 => drop(conn.send(mpd_protocol::Command::new("noidle"))),
+                                3 => drop(conn.send_list(mpd_protocol::CommandList::new(mpd_protocol::Command::new("status")).command(mpd_protocol::Command::new("idle")))),
+                                _ => {}
+                            }
+                            // (one connection in eight: a thread per call is expensive)
+                            move_next = salt & 7 == 0 && (interruptions == 2 || interruptions == 7);
+                            continue;
+                        }
                         Err(e) => break terminal_of(&e),
                     }
                 };
@@ -180,11 +209,17 @@ pub fn run_with(
                     obs.terminal = t;
                     if let Some(mut conn) = conn {
                         if obs.terminal != Terminal::NoProgress {
+                            let mut later = Vec::new();
                             let r = catch(|| {
                                 for _ in 0..extra {
-                                    let _ = conn.receive();
+                                    later.push(match conn.receive() {
+                                        Ok(Some(_)) => Terminal::Response,
+                                        Ok(None) => Terminal::CleanEof,
+                                        Err(e) => terminal_of(&e),
+                                    });
                                 }
                             });
+                            obs.after_terminal = later;
                             if let Err(p) = r {
                                 obs.after_terminal_panic = Some(p);
                             }
@@ -208,8 +243,9 @@ pub fn run_with(
                         Err(e) => return (terminal_of(&e), None),
                     };
                     obs.version = Some(conn.protocol_version().to_string());
+                    let salt = if cancel { crate::core::stable_hash(stream) } else { 0 };
                     let terminal = loop {
-                        let received = if cancel { receive_cancelling(&mut conn) } else { conn.receive().await };
+                        let received = if cancel { receive_cancelling(&mut conn, salt) } else { conn.receive().await };
                         match received {
                             Ok(Some(r)) => {
                                 let (o, mm) = observe_response(&r);
@@ -219,6 +255,9 @@ pub fn run_with(
                                 }
                                 if obs.responses.len() > max_responses {
                                     break Terminal::NoProgress;
+                                }
+                                if cancel && obs.responses.len() <= 40 {
+                                    let _ = conn.send(chatter(salt, obs.responses.len() as u64)).await;
                                 }
                             }
                             Ok(None) => break Terminal::CleanEof,
@@ -234,13 +273,19 @@ pub fn run_with(
                     obs.terminal = t;
                     if let Some(mut conn) = conn {
                         if obs.terminal != Terminal::NoProgress {
+                            let mut later = Vec::new();
                             let r = catch(|| {
                                 block_on(async {
                                     for _ in 0..extra {
-                                        let _ = conn.receive().await;
+                                        later.push(match conn.receive().await {
+                                            Ok(Some(_)) => Terminal::Response,
+                                            Ok(None) => Terminal::CleanEof,
+                                            Err(e) => terminal_of(&e),
+                                        });
                                     }
                                 })
                             });
+                            obs.after_terminal = later;
                             if let Err(p) = r {
                                 obs.after_terminal_panic = Some(p);
                             }
@@ -258,16 +303,53 @@ pub fn run_with(
     obs
 }
 
+/// MPD's command vocabulary: what an application may send while responses are still being received
+/// (pipelining, `noidle`, settings such as `binarylimit`). Sending never influences what `receive`
+/// returns for the bytes the peer sent.
+const VOCABULARY: [&str; 112] = [
+    "add", "addid", "addtagid", "albumart", "binarylimit", "channels", "clear", "clearerror", "cleartagid", "close", "commands", "config",
+    "consume", "count", "crossfade", "currentsong", "decoders", "delete", "deleteid", "delpartition", "disableoutput", "enableoutput", "find",
+    "findadd", "getfingerprint", "getvol", "idle", "kill", "list", "listall", "listallinfo", "listfiles", "listmounts", "listneighbors",
+    "listpartitions", "listplaylist", "listplaylistinfo", "listplaylists", "load", "lsinfo", "mixrampdb", "mixrampdelay", "mount", "move",
+    "moveid", "moveoutput", "newpartition", "next", "noidle", "notcommands", "outputs", "outputset", "partition", "password", "pause", "ping",
+    "play", "playid", "playlist", "playlistadd", "playlistclear", "playlistdelete", "playlistfind", "playlistid", "playlistinfo", "playlistlength",
+    "playlistmove", "playlistsearch", "plchanges", "plchangesposid", "previous", "prio", "prioid", "protocol", "random", "rangeid", "readcomments",
+    "readmessages", "readpicture", "rename", "repeat", "replay_gain_mode", "replay_gain_status", "rescan", "rm", "save", "search", "searchadd",
+    "searchaddpl", "searchcount", "seek", "seekcur", "seekid", "sendmessage", "setvol", "shuffle", "single", "stats", "status", "sticker",
+    "stickernames", "stop", "subscribe", "swap", "swapid", "tagtypes", "toggleoutput", "unmount", "unsubscribe", "update", "urlhandlers", "volume",
+];
+
+/// The `k`-th thing the application says on a connection whose peer sends `salt`-identified bytes: a
+/// pure function of the case, spread over the vocabulary x a few argument shapes.
+fn chatter(salt: u64, k: u64) -> mpd_protocol::Command {
+    let x = crate::core::splitmix64(salt ^ k.wrapping_mul(0x9E37_79B9_7F4A_7C15));
+    // every other remark is one of the few commands an idle-based client actually interleaves
+    let name = if x & 1 == 0 { ["noidle", "idle", "binarylimit", "ping", "status"][(x >> 1) as usize % 5] } else { VOCABULARY[(x >> 8) as usize % VOCABULARY.len()] };
+    let mut c = mpd_protocol::Command::new(name);
+    match (x >> 40) % 6 {
+        0 => {}
+        1 => drop(c.add_argument("1")),
+        2 => drop(c.add_argument("8192")),
+        3 => drop(c.add_argument("100000000")),
+        4 => drop(c.add_argument("a b")),
+        _ => {
+            let _ = c.add_argument("uri/of a.song");
+            let _ = c.add_argument("0");
+        }
+    }
+    c
+}
+
 /// Polls `receive` once; whenever it is Pending the future is dropped and a fresh one created. In
 /// between, a second unrelated connection on the same thread gets the same treatment (it receives one
 /// more line of a never-ending response of its own).
-fn receive_cancelling(conn: &mut AsyncConnection<AsyncChunkReader>) -> Result<Option<Response>, MpdProtocolError> {
+fn receive_cancelling(conn: &mut AsyncConnection<AsyncChunkReader>, salt: u64) -> Result<Option<Response>, MpdProtocolError> {
     use std::{future::Future, task::{Context, Poll, Waker}};
     thread_local! {
         static OTHER: std::cell::RefCell<Option<AsyncConnection<NoiseReader>>> = const { std::cell::RefCell::new(None) };
     }
     let mut cx = Context::from_waker(Waker::noop());
-    for _ in 0..50_000_000u64 {
+    for attempt in 0..50_000_000u64 {
         OTHER.with(|o| {
             let mut o = o.borrow_mut();
             if o.is_none() {
@@ -277,11 +359,27 @@ fn receive_cancelling(conn: &mut AsyncConnection<AsyncChunkReader>) -> Result<Op
             let mut fut = std::pin::pin!(c.receive());
             let _ = fut.as_mut().poll(&mut cx);
         });
-        let mut fut = std::pin::pin!(conn.receive());
-        if let Poll::Ready(r) = fut.as_mut().poll(&mut cx) {
+        // attempts 3 and 8 are made on another thread (the connection is Send)
+        let polled = if salt & 7 == 0 && (attempt == 2 || attempt == 7) {
+            crate::core::on_other_thread(|| {
+                let mut cx = Context::from_waker(Waker::noop());
+                let mut fut = std::pin::pin!(conn.receive());
+                fut.as_mut().poll(&mut cx)
+            })
+        } else {
+            let mut fut = std::pin::pin!(conn.receive());
+            fut.as_mut().poll(&mut cx)
+        };
+        if let Poll::Ready(r) = polled {
             // a fresh noise connection for the next case on this thread (its parked response grows)
             OTHER.with(|o| *o.borrow_mut() = None);
             return r;
+        }
+        // between two attempts the application sends something (the `idle` / `noidle` pattern)
+        match attempt % 4 {
+            0 => drop(crate::seg::block_on(conn.send(mpd_protocol::Command::new("noidle")))),
+            2 => drop(crate::seg::block_on(conn.send_list(mpd_protocol::CommandList::new(mpd_protocol::Command::new("status")).command(mpd_protocol::Command::new("idle"))))),
+            _ => {}
         }
     }
     panic!("harness: receive never completes");
@@ -546,7 +644,7 @@ pub fn run_via_helpers(flavour: Flavour, stream: &[u8], seg: &Seg, use_list: boo
     use mpd_protocol::{Command, CommandList};
     let st = state(GREETING, stream, seg);
     let max_responses = stream.len() / 3 + 4;
-    let mut obs = Obs { version: None, responses: Vec::new(), terminal: Terminal::CleanEof, reads: 0, after_terminal_panic: None, accessor_mismatch: None };
+    let mut obs = Obs { version: None, responses: Vec::new(), terminal: Terminal::CleanEof, reads: 0, after_terminal_panic: None, after_terminal: Vec::new(), accessor_mismatch: None };
     let list = || CommandList::new(Command::new("a")).command(Command::new("b"));
     let res = catch(|| match flavour {
         Flavour::Blocking => {
